@@ -119,26 +119,31 @@ XercesParserLiaison::~XercesParserLiaison()
 void
 XercesParserLiaison::reset()
 {
-    // Delete any live documents...
-    for(DocumentMapType::iterator i = m_documentMap.begin();
-        i != m_documentMap.end();
-        ++i)
+    // (begin() of a map that was never used would allocate,
+    // and this is called from the destructor.)
+    if (m_documentMap.empty() == false)
     {
-        if ((*i).second.isDeprecated() == false &&
-            (*i).second.isOwned() == true)
+        // Delete any live documents...
+        for(DocumentMapType::iterator i = m_documentMap.begin();
+            i != m_documentMap.end();
+            ++i)
         {
-            delete (*i).second.m_wrapper->getXercesDocument();
+            if ((*i).second.isDeprecated() == false &&
+                (*i).second.isOwned() == true)
+            {
+                delete (*i).second.m_wrapper->getXercesDocument();
+            }
+
+            XalanDocument* docToDelete = const_cast<XalanDocument*>((*i).first);
+
+            if(docToDelete != 0)
+            {
+                docToDelete->~XalanDocument();
+
+                getMemoryManager().deallocate((void*)docToDelete);
+            }
+
         }
-
-        XalanDocument* docToDelete = const_cast<XalanDocument*>((*i).first);
-
-        if(docToDelete != 0)
-        {
-            docToDelete->~XalanDocument();
-
-            getMemoryManager().deallocate((void*)docToDelete);
-        }
-
     }
 
     m_documentMap.clear();
